@@ -222,6 +222,24 @@ class PairWorld(WsWorld):
         cfac.setProtocolOptions(perMessageCompressionOffers=offers, perMessageCompressionAccept=c_accept,
                                 autoFragmentSize=cfg["fragC"], openHandshakeTimeout=0)
         self.cfac, self.sfac = cfac, sfac
+        if kind == "deflate" and ch.flag("earlier-connection-with-default-parameters", 0.2):
+            # an earlier connection of this process - other factories, the default offer (window 2^15, default memory
+            # level), compressed traffic both ways: nothing it leaves behind may reach the judged connection's codecs
+            dsfac = aw.WebSocketServerFactory("ws://localhost:9000", **kw)
+            dcfac = aw.WebSocketClientFactory("ws://localhost:9000", **kw)
+            dsfac.setProtocolOptions(perMessageCompressionAccept=lambda offers: C.PerMessageDeflateOfferAccept(offers[0]) if offers else None,
+                                     openHandshakeTimeout=0)
+            dcfac.setProtocolOptions(perMessageCompressionOffers=[C.PerMessageDeflateOffer()],
+                                     perMessageCompressionAccept=lambda r: C.PerMessageDeflateResponseAccept(r), openHandshakeTimeout=0)
+            aw2, RecServer2, RecClient2 = ws_classes()
+            dsfac.protocol, dcfac.protocol = RecServer2, RecClient2
+
+            def chat(dc, ds):
+                blob = corpus("decoy", 5000, "text", b"")
+                dc.p.sendMessage(blob, True)
+                ds.p.sendMessage(blob[::-1], True)
+                dc.p.sendMessage(blob[:2000], True)
+            self.decoy_pair(dcfac, dsfac, chat)
         c, s = self.build_pair(cfac, sfac)
         c.monitor = SenderMonitor("must", True, LazyCodec(c, kind))
         s.monitor = SenderMonitor("mustnot", True, LazyCodec(s, kind))
